@@ -423,6 +423,21 @@ func yield(site string, l, c int) {
 	time.Sleep(time.Duration(wake - now))
 }
 
+// Note appends an observation to the calling goroutine's local log without yielding
+// (Cap is -2 to tell notes from channel sites). Harness callbacks that run inside library
+// goroutines use it so that they never share memory with each other.
+func Note(site string, v int) {
+	s := get()
+	if s == nil || s.NoLog {
+		return
+	}
+	g := self()
+	if g == nil {
+		return
+	}
+	g.Log = append(g.Log, Event{T: time.Now().UnixNano(), G: g.Name, Site: site, Len: v, Cap: -2})
+}
+
 // Case is one case of a simulated select.
 type Case struct{ c reflect.SelectCase }
 
